@@ -172,7 +172,7 @@ def build_driver():
 
 
 # ----------------------------------------------------------------------------- executors
-def _run_lines(binary, cmd, lines, timeout=1800, shards=NPROC):
+def _run_lines(binary, cmd, lines, timeout=1800, shards=NPROC, ulimit_v=None):
     """Feed `lines` to `binary cmd` over several processes, keep order."""
     if not lines:
         return []
@@ -180,7 +180,8 @@ def _run_lines(binary, cmd, lines, timeout=1800, shards=NPROC):
     chunks = [lines[i::shards] for i in range(shards)]
     procs = []
     for ch in chunks:
-        p = subprocess.Popen(["bash", "-c", "ulimit -s unlimited 2>/dev/null; exec \"$0\" \"$1\"", binary, cmd], stdin=subprocess.PIPE, stdout=subprocess.PIPE,
+        pre = "ulimit -s unlimited 2>/dev/null; " if ulimit_v is None else "ulimit -v %d; " % ulimit_v
+        p = subprocess.Popen(["bash", "-c", pre + "exec \"$0\" \"$1\"", binary, cmd], stdin=subprocess.PIPE, stdout=subprocess.PIPE,
                              stderr=subprocess.PIPE, env=ENV)
         procs.append(p)
     import threading
